@@ -370,6 +370,9 @@ impl StoreTransaction {
             self.delete(COLUMN_CELL, &key)?;
             self.delete(COLUMN_CELL_DATA, &key)?;
             self.delete(COLUMN_CELL_DATA_HASH, &key)?;
+            // a dead cell has no data any more, also for readers that hit the cache
+            self.cache.cell_data.lock().pop(&key);
+            self.cache.cell_data_hash.lock().pop(&key);
         }
         Ok(())
     }
